@@ -14,6 +14,11 @@ class Boom(Exception):
     pass
 
 
+class FalsyV(tuple):
+    def __bool__(self):
+        return False
+
+
 class BoomBase(BaseException):
     """A failure of the wrapped function that is not an `Exception` (a control-flow exception deriving from
     BaseException): for the property it is a failed computation like any other."""
@@ -300,7 +305,7 @@ def run_scenario(scn, seed, pct=0, choices=None, preempt=None):
                 raise Boom(me)
             rec['out'] = ('ok', me)
             E.obs.append(f'ie:{c}:0:{me}')
-            return ('v', me)
+            return (FalsyV if me % 2 else tuple)(('v', me))    # a cached value may well be falsy
         except asyncio.CancelledError:
             rec['out'] = ('cancel', me)
             E.obs.append(f'ie:{c}:2:0')
